@@ -178,19 +178,22 @@ func AuditNode(n *kit.Node, floor uint64) error {
 }
 
 // Announce broadcasts the node's tip the way a miner (and the repository's own
-// test helper) does: the block outline when the tip is a v2 block and outline
-// is set, its header otherwise.
-func (n *SyncerNode) Announce(outline bool) {
+// `synced` test helper) does: the block outline when the tip is a v2 block -
+// preceded by the bare header when both is set - and the bare header for a v1
+// tip (there is no other announcement for v1 blocks; a header that attaches to
+// the receiver's tip is relayed on but triggers no download).
+func (n *SyncerNode) Announce(both bool) {
 	tip := n.Node.CM.Tip()
 	b, ok := n.Node.CM.Block(tip.ID)
 	if !ok {
 		return
 	}
-	if outline && b.V2 != nil {
-		n.S.BroadcastV2BlockOutline(gateway.OutlineBlock(b, n.Node.CM.PoolTransactions(), n.Node.CM.V2PoolTransactions()))
-		return
+	if b.V2 == nil || both {
+		n.S.BroadcastV2Header(b.Header())
 	}
-	n.S.BroadcastV2Header(b.Header())
+	if b.V2 != nil {
+		n.S.BroadcastV2BlockOutline(gateway.OutlineBlock(b, n.Node.CM.PoolTransactions(), n.Node.CM.V2PoolTransactions()))
+	}
 }
 
 // PeerState summarises the node's view of its peers.
